@@ -23,7 +23,7 @@ META = dict(
               'OpacityCache.__getitem__ / add_opacity / load_opacity_from_path / set_interpolation / set_memory_mode / '
               'clear_cache; the k-table readers and PickleCIA are compared with each other and with the written table '
               'only'],
-    assumptions=['wavenumbers of a file are pairwise distinct; HITRAN records of one range share one grid',
+    assumptions=['wavenumbers of a file are pairwise distinct; HITRAN records of one range share one grid; a CIA file holds at least two temperatures',
                  'Exo-Transmit: the reader adds 1e-60 m2 to every value by design; tolerance 1e-55 cm2 absolute',
                  'a molecule is held by at most one reader class of equal priority (pickle and Exo-Transmit readers have '
                  'the same priority and are kept in a Python set, so which wins is not defined by the code)',
@@ -284,6 +284,8 @@ def part_cia(ctx, tmp):
             for t in temps:
                 sig = np.array([10 ** rng.uniform(-48, -43) * rng.choice([1, 1, 1, -1]) for _ in wn])
                 recs.append((float(wn[0]), float(wn[-1]), t, wn, sig))
+        if len({t for _, _, t, _, _ in recs}) < 2:
+            continue               # interpolation in temperature needs two temperatures (stated assumption)
         rng.shuffle(recs) if rng.random() < 0.3 else None
         pair = rng.choice(['H2-He', 'H2-H2', 'N2-N2'])
         d = os.path.join(tmp, 'c%d' % n)
@@ -337,7 +339,11 @@ def part_cia(ctx, tmp):
         else:
             grid = np.sort(np.array(rng.sample(list(allwn), min(3, len(allwn)))))
             for t in [rng.choice(temps), rng.uniform(temps[0], temps[-1])]:
-                ch, cp = h.cia(t, grid), p.cia(t, grid)
+                try:
+                    ch, cp = h.cia(t, grid), p.cia(t, grid)
+                except Exception as e:
+                    bad = 'cia(%g) raised %r' % (t, e)
+                    break
                 if not np.allclose(ch, cp, rtol=1e-10, atol=0):
                     bad = 'cia(%g) differs between the HITRAN and the pickle reader: %r vs %r' % (t, ch, cp)
         if h.pairName != pair:
